@@ -44,7 +44,7 @@ def view_of(it, r):
 def _register(name, arg_kind, props=("C12",), specname=None, extra_funcs=()):
     specname = specname or name
 
-    @contract(f"Query.{name}==list-op", props, [Q + name] + [Q + f for f in extra_funcs])
+    @contract(f"Query.{name}==list-op", props, [Q + name] + [Q + f for f in extra_funcs], replay=("query_op_replay", [name, specname, arg_kind], "query_candidates"))
     def _c(ctx, name=name, arg_kind=arg_kind, specname=specname):
         v = ctx.seq("v")
         args = []
